@@ -5,8 +5,11 @@
  *             about it: the result of SaslMechanism::fromString on it (`gh_from`) and whether the list of disabled mechanisms
  *             contains it (`gh_disabled`); `id == 0` is the empty string.  Attribute records that are not functions of the id
  *             are admitted too (a superset of the real scenarios), the code never compares two strings here.
- * A-QLIST     QList<QString>: size(), at(i) over an element array of any length; contains(s) is the membership predicate of
- *             the list (only the list of disabled mechanisms is queried); push_back appends (only the count is kept).
+ * A-QLIST     QList<QString>: size(), at(i) over an element array of any length; push_back appends (only the count is kept).
+ *             contains(s) on the list of disabled mechanisms is the string's attribute.  contains(s) on the OFFERED list is the
+ *             membership predicate by witnesses: true => some index w holds a string equal to s (same id, hence the same
+ *             attributes; w and that element are remembered in gh_found*), false => the element at the witness index g_i
+ *             differs from s.  contains on any other list is a MODEL-LIMIT.
  * A-STD-VECTOR/A-STD-MAX/A-STD-FIND  std::vector<SaslMechanism> filled by push_back is summarised by its size, its maximum under
  *             the generated operator< (the leftmost one, as std::ranges::max returns it) and by whether it holds the probe value
  *             g_probe (operator== of the variant); `contains(vec, x)` (QXmpp Algorithms.h: std::find(begin, end, x) != end) may
@@ -35,9 +38,14 @@ typedef struct QXmppConfiguration { QStrList disabledSaslMechanisms; qstr saslAu
 typedef struct VecMech { long n; SaslMechanism minv; SaslMechanism maxv; long max_src; qstr max_elem; bool has_probe; long probe_src; qstr probe_elem; } VecMech;
 typedef struct ChooseResult { OptSaslMechanism first; QStrList second; } ChooseResult;
 
+#define MECH_ALL_EQ(a, b) ((a).index == (b).index && SaslScramMechanism_EQ((a).alt_SaslScramMechanism, (b).alt_SaslScramMechanism) && SaslHtMechanism_EQ((a).alt_SaslHtMechanism, (b).alt_SaslHtMechanism))
+#define QSTR_EQ(a, b) ((a).id == (b).id && (a).gh_disabled == (b).gh_disabled && (a).gh_from.has == (b).gh_from.has && MECH_ALL_EQ((a).gh_from.v, (b).gh_from.v))
 /* ghost */
-SaslMechanism g_probe;     /* arbitrary mechanism value fixed before the call */
+const qstr *gh_d;          /* element array of the offered list (set by a ghost hook on entry) */
+long gh_n;                 /* its length */
+bool gh_found; long gh_found_idx; qstr gh_found_elem;   /* witness of the last successful contains() on the offered list */
 long g_i;                  /* witness index into the offered list */
+SaslMechanism g_probe;     /* arbitrary mechanism value fixed before the call */
 long gh_src;               /* index of the offered element the pipeline is working on */
 qstr gh_cur;               /* ... and that element, as the code read it */
 VecMech gh_vec;            /* the summary of `mechanisms` after the pipeline was consumed */
@@ -46,8 +54,13 @@ static inline long QStrList_size(const QStrList *l) { return l->n; }
 static inline qstr QStrList_at(const QStrList *l, long i) { return l->d[i]; }
 static inline bool QStrList_contains(const QStrList *l, qstr s)
 {
-  MODEL_LIMIT(l->gh_is_disabled_list, "QList::contains on a list other than the disabled mechanisms");
-  return s.gh_disabled;
+  if (l->gh_is_disabled_list) return s.gh_disabled;
+  MODEL_LIMIT(l->d == gh_d && l->n == gh_n, "QList::contains on a list other than the disabled mechanisms or the offered mechanisms");
+  bool b = nondet_bool();
+  long w = nondet_long();
+  __CPROVER_assume(b ? (0 <= w && w < l->n && QSTR_EQ(l->d[w], s)) : (!(0 <= g_i && g_i < l->n) || l->d[g_i].id != s.id));
+  if (b) { gh_found = true; gh_found_idx = w; gh_found_elem = l->d[w]; }
+  return b;
 }
 static inline void QStrList_push_back(QStrList *l, qstr s)
 {
